@@ -34,6 +34,21 @@ theorem check_normDays (j : List Day) : (Check.run (j.map normDay)).isOk = (Chec
   rw [C04.C04_accept_iff_strict, C04.C04_accept_iff_strict]
   exact (verdict_perm true _ _ (forall₂_normDays DayEquiv dayEquiv_normDay j)).symm
 
+/-- **`knut print` reproduces its own output**: on the printed text of an accepted printable journal the command prints
+that text -/
+theorem printFile_fixpoint (path : String) (j : List Day) (hp : PrintableJournal j) (hacc : (Check.run j).isOk = true) :
+    printFile path (strBytes (print j)) = .ok (print j) := by
+  unfold printFile
+  rw [load_print path j hp.dirs]
+  simp only
+  have h1 := check_normDays j
+  rw [hacc, ← rebuild j hp.shape] at h1
+  cases hc : Check.run (Builder.ofList (journalDirs j)).build with
+  | error e => rw [hc] at h1; cases h1
+  | ok st =>
+    simp only
+    rw [rebuild j hp.shape, print_normDays]
+
 /-- printable transactions book on accounts with an account type -/
 theorem dirsWF_of_printable (ds : List Directive) (h : ∀ x ∈ ds, PrintableDir x) : DirsWF ds := by
   intro t ht p hp
